@@ -10,8 +10,6 @@ from ..flat import TRIGGER
 from ..common import SLOT
 
 SIG_GATHER = 'C07.gather:raise-in-multi-callback-stage'
-SIG_SCOPE = 'C07.nested-async-scope-leak:raise-in-nested-enter-exit'
-ENTER_EXIT = (SLOT['on_enter'], SLOT['on_exit'])
 
 
 def classes(stream):
@@ -104,22 +102,17 @@ def neutralised(d, which):
     for key, (cmds, out) in list(c.script.items()):
         if which == 'gather' and key[0] in multi and out[0] == 'raise':
             c.script[key] = (cmds, ('ret', True))
-        # an enter/exit callback raises by itself or because a trigger it awaits raises
-        if which == 'scope' and c.cb_slot.get(key[0]) in ENTER_EXIT:
-            c.script[key] = ([], ('ret', True))
     return c
 
 
 def signature(stream, d, what):
-    """narrow classification of a property failure: it is one of the two listed findings only if the
+    """narrow classification of a property failure: it is the listed gather finding only if the
     failure disappears when exactly that cause is removed from the input"""
     if what not in ('sync_async_obs', 'barrier'):
         return 'C07.' + what
     cands = []
     if aflat.raises_in_multi(d):
         cands.append(('gather', SIG_GATHER))
-    if STREAMS[stream]['nested'] and any((o[0] == 'raise' or x) and d.cb_slot.get(c) in ENTER_EXIT for (c, _k), (x, o) in d.script.items()):
-        cands.append(('scope', SIG_SCOPE))
     for which, sig in cands:
         d2 = neutralised(d, which)
         ra, rs = make_runs(stream, d2)
@@ -169,7 +162,7 @@ def stats(st, stream, d, ra, rs):
     bump('stream', stream)
     bump('queued', repr(aflat.QMODES[d.qmode]))
     for k in d.kinds.values():
-        bump('callback_kind', ['plain', 'coroutine', 'suspending'][k])
+        bump('callback_kind', aflat.KIND_NAMES[k])
     for i in ra.items:
         if i[0] in ('ret', 'raised'):
             bump('outcomes', 'true' if (i[0] == 'ret' and i[2] == 1) else ('false' if i[0] == 'ret' else 'raised:' + common.EXC_NAMES[i[2]]))
@@ -250,8 +243,7 @@ class C07(runner.Check):
         note="Trusted: Lean kernel, hand-written models Model/Async.lean and Model/Core.lean (tied by trace equality), the "
              "observation map obsC07, harness recorders. Regime 'one at a time': a callback that awaits triggers (or raises) sits "
              "alone in its stage; conditions sharing a stage are deterministic; queued='model' compared on one model. Hierarchical "
-             "async classes: differential only (no Lean model of the nested async copies). Open findings: gather after a raise; "
-             "NestedAsyncState scope leak.",
+             "async classes: differential only (no Lean model of the nested async copies). Open finding: gather after a raise.",
         technique='Lean 4 proof (simulation async-vs-sync, unbounded) + differential correspondence + implementation-level differential monitor')
     theorems = ('TM.C07_flat_partial', 'TM.C07_condition_awaitable', 'TM.C07_stage_barrier', 'TM.C07_history_barrier',
                 'TM.C07_stage_starts_in_order', 'TM.C07_flat_counterexample')
@@ -259,7 +251,7 @@ class C07(runner.Check):
             'callbacks in every slot, raising callbacks, on_exception handlers, unknown events, unregistered destinations, 1-2 models, '
             'callbacks that await further triggers) and nested ones (a random tree over <=7 states: compound states with initial child, '
             'parallel states, transitions on leaves and ancestors) x every callback/condition independently plain function / coroutine / '
-            'coroutine suspending once x queued in {False, True, "model"} x histories of 1-8 awaited triggers; a case is non-trivial when '
+            'coroutine suspending once / plain callable returning a scheduled Task / a later-resolved Future / an __await__ object x queued in {False, True, "model"} x histories of 1-8 awaited triggers; a case is non-trivial when '
             'a transition executed and the raw async trace differs from the raw sync trace (so the observation map and the barrier did '
             'real work); distinct = different protocol encoding')
     trusted = ('hand-written async model lean/Model/Async.lean tied to AsyncMachine by trace equality on every generated Solo case',
@@ -276,8 +268,8 @@ class C07(runner.Check):
             "queued='model' is compared with the synchronous queued=True on a single model (a synchronous machine has no per-model queue)",
             'the caller awaits only awaitable results: model.trigger(<unknown event>) answers synchronously (False / AttributeError)',
             'callback finish times are not compared with the synchronous order (only starts are); the barrier monitor checks them',
-            'a raising callback with siblings in its stage (gather does not stop the siblings) and a raising enter/exit callback of a '
-            'nested state (scope leak) are listed findings; any other difference is a violation',
+            'a raising callback with siblings in its stage (gather does not stop the siblings) is the one listed finding; any other '
+            'difference is a violation',
             'may_<event> (_can_trigger copies), dispatch, add/remove_model and cancellation are outside this property (C12, C10, C08)',
         ]
 
